@@ -1595,6 +1595,7 @@ func (v *FnV) loopCore(st *State, node ast.Stmt, label string, modified []ast.No
 	} else {
 		v.applyAt(sB, ord, sc)
 	}
+	iterStart := sB.fork()
 	var decrBefore []string
 	for _, cl := range ls.decr {
 		val, err := v.spec(sB, cl.Expr, sc)
@@ -1627,6 +1628,28 @@ func (v *FnV) loopCore(st *State, node ast.Stmt, label string, modified []ast.No
 			}
 		}
 		checkInvs(s, "pres")
+		if len(v.frames) == 1 {
+			for k, cl := range v.fc.Steps {
+				if cl.Loop != ord {
+					continue
+				}
+				s2 := s.fork()
+				ssc := *sc
+				ssc.old = iterStart
+				ssc.oldVars = map[string]Value{}
+				ssc.oldLocals = true
+				val, err := v.spec(s2, cl.Expr, &ssc)
+				if err != nil {
+					v.specError(cl, err)
+					continue
+				}
+				lbl := fmt.Sprintf("%d", k+1)
+				if cl.Label != "" {
+					lbl = cl.Label
+				}
+				v.oblige(s2, "step:"+lbl+"@loop", node, ord, val.S, "step "+cl.Text)
+			}
+		}
 		for i, cl := range ls.decr {
 			if i >= len(decrBefore) {
 				break
